@@ -9,6 +9,7 @@ from vf.pyvc import arrays, pandas_m
 from vf.pyvc.values import SObj, SStr, intern
 from .base import REG
 from . import config_c, categorical_c   # noqa: F401
+from .categorical_c import label_of      # noqa: F401
 
 REG.external_objects.update(arrays.external_objects())
 REG.external_objects.update(pandas_m.external_objects())
@@ -184,6 +185,16 @@ REG.contract(V + ".eval_categoric", params={"x": "series", "spans_intercept": "b
                       "implies(not (self.is_response and self.reference is not None) and not spans_intercept, "
                       "self.value.shape[0] == nrows(x) and self.value.shape[1] == len(self.levels) - 1 and "
                       "forall(0, nrows(x), lambda r: forall(0, len(self.levels) - 1, lambda j: self.value[r, j] == " + IND.format(lvl="self.levels[j + 1]") + ")))",
+                      # the stored coding is what produced the values: row r carries the contrast row of its level (this is what
+                      # eval_new_data_categoric reuses, so new rows equal training rows: lemma vf.proplemmas.c06.categoric_rows)
+                      "implies(not (self.is_response and self.reference is not None), self.value.ndim == 2)",
+                      "implies(not (self.is_response and self.reference is not None), "
+                      "self.contrast_matrix.matrix.shape[0] == len(self.levels) and self.contrast_matrix.matrix.shape[1] == self.value.shape[1] and "
+                      "forall(0, nrows(x), lambda r: forall(0, self.value.shape[1], lambda j: "
+                      "self.value[r, j] == self.contrast_matrix.matrix[codes(x, self.levels)[r], j])))",
+                      # ... and its labels are the levels it keeps, in order
+                      "implies(not (self.is_response and self.reference is not None), len(self.contrast_matrix.labels) == self.value.shape[1] and "
+                      "forall(0, self.value.shape[1], lambda j: self.contrast_matrix.labels[j] == label_of(self.levels[j if spans_intercept else j + 1])))",
                       "self.spans_intercept == spans_intercept"])
 FUNCTIONS += [V + ".eval_categoric"]
 ASSUMPTIONS = ASSUMPTIONS + ["pandas assumed (training): sorted(np.unique(x).tolist()) lists the distinct row values in increasing order; "
@@ -205,6 +216,12 @@ REG.contract(CL + ".eval_categoric", params={"x": "series", "spans_intercept": "
                       "forall(0, nrows(x), lambda r: forall(0, len(self.levels), lambda j: self.value[r, j] == " + IND.format(lvl="self.levels[j]") + ")))",
                       "implies(not spans_intercept, self.value.shape[0] == nrows(x) and self.value.shape[1] == len(self.levels) - 1 and "
                       "forall(0, nrows(x), lambda r: forall(0, len(self.levels) - 1, lambda j: self.value[r, j] == " + IND.format(lvl="self.levels[j + 1]") + ")))",
+                      "self.value.ndim == 2",
+                      "self.contrast_matrix.matrix.shape[0] == len(self.levels) and self.contrast_matrix.matrix.shape[1] == self.value.shape[1] and "
+                      "forall(0, nrows(x), lambda r: forall(0, self.value.shape[1], lambda j: "
+                      "self.value[r, j] == self.contrast_matrix.matrix[codes(x, self.levels)[r], j]))",
+                      "len(self.contrast_matrix.labels) == self.value.shape[1]",
+                      "forall(0, self.value.shape[1], lambda j: self.contrast_matrix.labels[j] == label_of(self.levels[j if spans_intercept else j + 1]))",
                       "self.spans_intercept == spans_intercept"])
 FUNCTIONS += [CL + ".eval_categoric"]
 
